@@ -1239,7 +1239,7 @@ fn ep_config(tag: u8, seed: u64) -> EndpointConfig {
 }
 fn transport(p: &P) -> TransportConfig {
     let mut t = TransportConfig::default();
-    let idle = p.get(k::IDLE_MS, 0);
+    let idle = p.get(k::IDLE_MS, 30_000);
     if idle == 0 {
         t.max_idle_timeout(None);
     } else {
@@ -1416,6 +1416,7 @@ fn run(sh: Arc<Sh>, p: P, saddr: SocketAddr) {
     let mut last_snap: Vec<Vec<i128>> = vec![Vec::new(), Vec::new()];
     let mut steps: u64 = 0;
     let mut quiesced = 0;
+    let mut semis = 0;
     let end_reason;
     loop {
         // adopt new tasks
@@ -1480,6 +1481,16 @@ fn run(sh: Arc<Sh>, p: P, saddr: SocketAddr) {
             match next {
                 Some(t) => {
                     let t = t.max(now);
+                    if t >= now + 50_000 && semis < 400 {
+                        // the clock is about to jump: same check as at quiescence
+                        semis += 1;
+                        forced_round(&sh, &mut tasks, -1, 1);
+                        let more = NEWQ.with(|q| !q.borrow().is_empty())
+                            || tasks.iter().any(|t| t.fut.is_some() && t.wk.runnable.load(Ordering::Relaxed));
+                        if more {
+                            continue;
+                        }
+                    }
                     sh.now.store(t, Ordering::Relaxed);
                     let mut wake: Vec<Waker> = Vec::new();
                     {
@@ -1516,33 +1527,8 @@ fn run(sh: Arc<Sh>, p: P, saddr: SocketAddr) {
                 }
                 None => {
                     // QUIESCENT
-                    let live_app = tasks.iter().filter(|t| t.fut.is_some() && t.kind == 2).count();
-                    let live_drv = tasks.iter().filter(|t| t.fut.is_some() && t.kind != 2).count();
-                    sh.log(vec![29, sh.t(), quiesced, live_app as i128, live_drv as i128]);
+                    let any = forced_round(&sh, &mut tasks, quiesced, 0);
                     quiesced += 1;
-                    let mut any = false;
-                    for i in 0..tasks.len() {
-                        if tasks[i].fut.is_none() {
-                            continue;
-                        }
-                        let before = tasks[i].st.as_ref().map(|s| s.cur_op.get()).unwrap_or((-1, 0, -1));
-                        if let Some(st) = &tasks[i].st {
-                            st.forced.set(true);
-                            st.progressed.set(false);
-                        }
-                        let done = poll_task(&sh, &mut tasks, i, 2);
-                        let prog = tasks[i].st.as_ref().map(|s| s.progressed.get()).unwrap_or(false);
-                        if let Some(st) = &tasks[i].st {
-                            st.forced.set(false);
-                        }
-                        // a forced poll that completes a quinn operation = its wake-up was lost;
-                        // a driver that finishes only when forced likewise
-                        let lost = (prog && before.0 >= 0) || (done && tasks[i].kind != 2);
-                        sh.log(vec![30, sh.t(), i as i128, tasks[i].kind, before.0, before.1, before.2, lost as i128]);
-                        if prog || done {
-                            any = true;
-                        }
-                    }
                     let more = NEWQ.with(|q| !q.borrow().is_empty())
                         || tasks.iter().any(|t| t.fut.is_some() && t.wk.runnable.load(Ordering::Relaxed));
                     if (any || more) && quiesced < 50 {
@@ -1578,6 +1564,44 @@ fn run(sh: Arc<Sh>, p: P, saddr: SocketAddr) {
     drop(tasks);
     NEWQ.with(|q| q.borrow_mut().clear());
     sh.trace.lock().unwrap().truncate(n);
+}
+
+
+/// Nothing is runnable: by the wake-up invariant every pending operation's condition is false.
+/// Poll every live task once more, application operations with a FRESH future; `lost` = an
+/// operation completed although nobody woke its task. `semi` = 1: timers are still pending (the
+/// clock is about to jump), 0: full quiescence.
+fn forced_round(sh: &Arc<Sh>, tasks: &mut Vec<Task>, n: i128, semi: i128) -> bool {
+    let live_app = tasks.iter().filter(|t| t.fut.is_some() && t.kind == 2).count();
+    let live_drv = tasks.iter().filter(|t| t.fut.is_some() && t.kind != 2).count();
+    sh.log(vec![29, sh.t(), n, live_app as i128, live_drv as i128, semi]);
+    let mut any = false;
+    for i in 0..tasks.len() {
+        if tasks[i].fut.is_none() || (semi == 1 && tasks[i].kind != 2) {
+            continue;
+        }
+        let before = tasks[i].st.as_ref().map(|s| s.cur_op.get()).unwrap_or((-1, 0, -1));
+        if semi == 1 && before.0 < 0 {
+            continue;
+        }
+        if let Some(st) = &tasks[i].st {
+            st.forced.set(true);
+            st.progressed.set(false);
+        }
+        let done = poll_task(sh, tasks, i, 2);
+        let prog = tasks[i].st.as_ref().map(|s| s.progressed.get()).unwrap_or(false);
+        if let Some(st) = &tasks[i].st {
+            st.forced.set(false);
+        }
+        // a forced poll that completes a quinn operation = its wake-up was lost;
+        // a driver that finishes only when forced likewise
+        let lost = (prog && before.0 >= 0) || (done && tasks[i].kind != 2);
+        sh.log(vec![30, sh.t(), i as i128, tasks[i].kind, before.0, before.1, before.2, lost as i128]);
+        if prog || done {
+            any = true;
+        }
+    }
+    any
 }
 
 /// poll task `i` once; mode 0 normal, 1 spurious, 2 forced. Returns whether it finished.
